@@ -35,6 +35,21 @@ CHECKS = {
    note="The text of expr() is never compared with Render (spacing, redundant parentheses are free). Trusted: TLC, hook H1, encodings.",
    technique="TLA+ Render vs RefParse round-trip theorem (TLC) + real expr() round trips + trace validation of rendered text against the reference grammar",
    design="5/C12"),
+ "C03": dict(
+   text="The reference layer (TLA+ modules Builtins / Decimal / BigNum / Values: exact decimal arithmetic on base-10^4 limb sequences, 64-bit two's-complement bit operations, structural equality, typed fault table) is evaluated by TLC on every application of every built-in infix (32), prefix (6), postfix (2) operator and aggregate (4) to every tuple of a 37-value (thorough 52-value) universe covering every value type; each application is evaluated by the real engine (operands bound in the context and, where possible, as literals) and compared; random wide-domain applications recorded from the engine are validated by TLC.",
+   note="Don't-care classes (rust_decimal rounding latitude) are explicit and counted in the evidence. The limb arithmetic is itself checked against TLC's integers (C09). Trusted: TLC, value encodings.",
+   technique="TLA+ reference semantics of the built-ins evaluated exhaustively by TLC over a value universe, replayed in the real evaluator; trace validation of random applications",
+   design="5/C03"),
+ "C04": dict(
+   text="Same reference layer with its explicit fault table (zero divisor, result beyond 2^96, shift count outside 0..63, non-integral / out-of-i64 operand of a bit operator, empty min/max, every type mismatch => Err): every operator and aggregate over the edge universe (0, +-1, +-0.5, 63, 64, 65, i64 MIN/MAX, 2^63, 2^96-1, 2^96-2, 10^-28, 1+10^-28, ...) is evaluated by the engine in BOTH a debug and a release build and must give Err exactly where the table says so, never a panic, and the exact value otherwise; random near-edge operands are validated by TLC.",
+   note="Don't-care: 2^96-1 < |exact| < 2^96, results needing > 28 places, a << b with bits shifted out (wrap or Err), % with alignment beyond 96 bits. Trusted: TLC, value encodings.",
+   technique="TLA+ fault table + exact limb arithmetic (TLC) replayed in debug and release builds of the real evaluator; trace validation of near-edge operands",
+   design="5/C04"),
+ "C09": dict(
+   text="Exactness is specified on limb sequences (BigNum/Decimal) because TLC integers are 32-bit; the limb arithmetic is model-checked against TLC's native integers (all pairs 0..320 plus boundary values, general division, 2^63/2^64/2^96 constants). All 75x75 pairs of small decimals (mantissa -12..12, scale 0..2) under + - * % < <= > >= == != += -= *= %= are evaluated by TLC and by the real engine (literals and variables). Recorded literals (random digit strings up to 28 digits, scales 0..28, malformed texts) must evaluate to exactly that mantissa and scale or be rejected, and recorded random / boundary 96-bit operand pairs must give the exact result whenever it fits - both validated by TLC.",
+   note="Exhaustive only on the scaled-down domain; the 96-bit domain is sampled with an exact oracle. Literals with more than 28 digit characters are don't-care.",
+   technique="TLA+ BigNum/Decimal exact arithmetic (self-checked by TLC) as executable oracle: small-domain exhaustive replay + trace validation of literals and wide operands",
+   design="5/C09"),
 }
 NOT_YET = "check not built yet (build in progress; see DESIGN.md section 11)"
 
